@@ -19,8 +19,10 @@ CFG = apiprops.cfg("C05", ["C05_reference_offsets_valid", "C05_iter_spans_valid"
                    [apiprops.api_extra("C05", limits=("-", "1", "3"))],
                    feats=[gen.Feats(cond=True, contg=True, nullable_star=True, refs_closed=False, named=True), gen.Feats(cond=True, contg=True, refs_closed=False), gen.Feats(nullable_star=True, refs_closed=False)],
                    tiers=("t2", "run"), n_thorough=1000, k_base_thorough=20, k_extra_thorough=12,
-                   corpus=["(?:(?=(\\1?a))aaa)+", "a|(?<=\\Ka)b", "(?!x)", "^|(?<=,)", "\\d*(?=é)", "(?<=é)", "(?<!€)\\b", "(?<=𝄞)|a", "\\G(?=é)", "(a)|\\1", "(?:\\1(a))+", "(?<=(?=é).)", ".(?<=é)", "(?<=\\Gé)", "\\K", "(?:)*+", "(\\1)"] + list(wide()), pattern_texts=wide(),
-                   alpha=["a", "é", "€", "𝄞", ",", "\n"], extra_texts=["฿", "฿।", "a฿a", "।฿฿", "a,", "aa,", "é", "a,é", "éé", "€é", "𝄞a𝄞", "aaaaaa", "aé€𝄞", ",é,", "é\n€"],
+                   corpus=["(?:(?=(\\1?a))aaa)+", "a|(?<=\\Ka)b", "(?!x)", "^|(?<=,)", "\\d*(?=é)", "(?<=é)", "(?<!€)\\b", "(?<=𝄞)|a", "\\G(?=é)", "(a)|\\1", "(?:\\1(a))+", "(?<=(?=é).)", ".(?<=é)", "(?<=\\Gé)", "\\K", "(?:)*+", "(\\1)",
+                           # a delegate with an optional group, run several times by a VM loop; nested atomic constructs behind an alternation
+                           "(?>(a)?,)+", "(?>(é)?a)+", "(?:(?:(a)|(,))(?!x))+", "(?:(?=(?:(a)|.)).)+", "(?>(?:a(?>,)|a)é)", "(?>(?:é(?>€)|é)a)", "(?=(?:a(?>x)|a)(,)\\1)a", "(?:(?:a(?:,)++|a)é)++", "(?>a(?>,)|.)*é"] + list(wide()), pattern_texts=wide(),
+                   alpha=["a", "é", "€", "𝄞", ",", "\n"], extra_texts=["฿", "฿।", "a฿a", "।฿฿", "a,", "aa,", "a,,", "aaé", "éé€", "aa,,", "aaaé", "é", "a,é", "éé", "€é", "𝄞a𝄞", "aaaaaa", "aé€𝄞", ",é,", "é\n€"],
                    assumptions=["PARTIAL: 'the compiled VM never reaches a panic site, reported slots are boundaries' is a theorem for EVERY compiled program of a pattern with no conditional under an atomic cut; for those patterns, and for SearchOK's start >= offset, it is validated (catch_unwind on every entry point, exact model tie); F-keepout-lb is a known finding"])
 
 
